@@ -19,3 +19,5 @@ def run(out, sc, tier, seed):
     # every scheme of the interpreter's urllib tables as the base's scheme (authority / rooted / rootless; auto-encoded and verbatim,
     # the latter keeping dot segments in the base) x the reference shapes of RFC 3986 5.4
     run_progs(out, sc, "C14", {"gen": "joinschemes", "fields": FIELDS}, "join-schemes", nslices=6)
+    from .common import run_witnesses
+    run_witnesses(out, sc, "C14", fields=FIELDS)
